@@ -139,14 +139,30 @@ def run(c: sym.Ctx, spec: Dict[str, Any], on_step: Any = None) -> Run:
     try:
         loop = lab.loop
         # ---- explored prefix
+        preempt = spec.get("preempt", 0)
         while True:
+            if preempt > 0 and loop._ready and made < K and not main.done():
+                # a choice point *between two loop iterations*, while callbacks are still ready: an external event (I/O completion,
+                # signal handler) may land here, not only when the loop is idle
+                opts = ["~run"] + sorted(g for g, f in lab.gates.items() if not f.done() and not g.startswith("hang:")
+                                         and (g != "stream" or stream_end)) + sorted(lab.env)
+                pick = c.choose(opts, "mid")
+                if pick == "~run":
+                    loop._run_once()
+                    continue
+                preempt -= 1
+                made += 1
+                lab.rec("preempt", pick)
+                _apply(lab, pick)
+                consecutive_ticks = 0
+                continue
             loop.settle()
             if on_step is not None:
                 on_step(r)
             if main.done() or made >= K:
                 break
-            opts: List[str] = sorted(g for g, f in lab.gates.items() if not f.done() and not g.startswith("hang:")
-                                     and (g != "stream" or stream_end))
+            opts = sorted(g for g, f in lab.gates.items() if not f.done() and not g.startswith("hang:")
+                          and (g != "stream" or stream_end))
             opts += sorted(lab.env)
             if loop.next_timer() is not None and consecutive_ticks < 2:
                 opts.append("~tick")
